@@ -1,5 +1,7 @@
 mod client_core;
 mod client_props;
+mod codec;
+mod c16;
 mod driver;
 mod explore;
 mod fault;
@@ -127,6 +129,12 @@ fn run(prop: &str, tier: Tier, replay: Option<String>) -> i32 {
     }
     if prop == "C13" {
         return limits_key::run_c13(tier);
+    }
+    if prop == "C15" {
+        return codec::run_c15(tier);
+    }
+    if prop == "C16" {
+        return c16::run_c16(tier);
     }
     let parts = parts_for(prop, tier);
     if !parts.is_empty() {
